@@ -102,6 +102,8 @@ pub struct Cfg
     pub app_reactors: (u64, u64),
     /// percent chance that a driver step is preceded by a repeated `app.setup_auto_despawn()`
     pub pct_app_setup: u64,
+    /// percent of resource triggers / trigger calls that name the removable resource `T`
+    pub pct_res_t: u64,
 }
 
 fn wset(pairs: &[(K, u32)]) -> [u32; NK] { let mut w = [0u32; NK]; for (k, v) in pairs { w[*k as usize] = *v; } w }
@@ -149,6 +151,7 @@ pub fn base_cfg() -> Cfg
         despawn_trig_boost: 0,
         app_reactors: (0, 1),
         pct_app_setup: 2,
+        pct_res_t: 10,
     }
 }
 
@@ -187,6 +190,20 @@ pub fn profile(name: &str) -> Cfg
             c.runs_per_inst = (2, 4);
             c.pct_fallible = 30;
             if name == "C13" { c.app_reactors = (0, 3); }
+        }
+        "C09P" =>
+        {
+            // polled reactions at tree boundaries: despawn / removal triggers, revoked watchers, despawns as the last commands of a tree
+            c.name = "C09P";
+            bump(&mut c, &[(K::Despawn, 14), (K::DespawnRec, 2), (K::Remove, 8), (K::Revoke, 10), (K::Register, 6), (K::On, 4), (K::Run, 10), (K::SysEvent, 6), (K::Insert, 4), (K::Kill, 1), (K::Probe, 1)]);
+            c.despawn_trig_boost = 10;
+            c.d_tree[D::Despawn as usize] = 10;
+            c.d_driver[D::Despawn as usize] = 8;
+            c.d_driver[D::Spawn as usize] = 6;
+            c.modes = [30, 20, 50];
+            c.pct_hot = 60;
+            c.slots = (3, 4);
+            c.initial_bundle = (1, 3);
         }
         "C03" | "C12" =>
         {
@@ -280,6 +297,7 @@ pub fn profile(name: &str) -> Cfg
             c.d_driver[D::Insert as usize] = 8;
             for d in [D::Acc, D::ResAcc, D::Move] { let w = if d == D::Acc { 24 } else if d == D::ResAcc { 10 } else { 5 }; c.d_tree[d as usize] = w; c.d_driver[d as usize] = w; }
             bump(&mut c, &[(K::Direct, 14), (K::Now, 10)]);
+            c.pct_res_t = 30;
             c.pct_excl = 15;
             c.pct_hot = 85;
         }
@@ -348,6 +366,8 @@ impl<'a> G<'a>
     fn p(&mut self) -> P { if self.r.chance(65) { P::X } else { P::Y } }
     fn comp(&mut self) -> C { if self.r.chance(65) { C::A } else { C::B } }
     fn res(&mut self) -> R { if self.r.chance(65) { R::R } else { R::S } }
+    /// for triggers and explicit trigger calls: the removable resource takes part too
+    fn res3(&mut self) -> R { if self.r.chance(self.c.pct_res_t) { R::T } else { self.res() } }
     fn val(&mut self) -> u8 { self.r.below(3) as u8 }
 
     fn any_trig(&mut self) -> Trig
@@ -360,7 +380,7 @@ impl<'a> G<'a>
             0 => Trig::Broadcast(self.p()),
             1 => Trig::AnyEntityEvent(self.p()),
             2 => Trig::EntityEvent(s, self.p()),
-            3 => Trig::Resource(self.res()),
+            3 => Trig::Resource(self.res3()),
             4 => Trig::Insertion(self.comp()),
             5 => Trig::Mutation(self.comp()),
             6 => Trig::Removal(self.comp()),
@@ -449,7 +469,7 @@ impl<'a> G<'a>
             x if x == D::SysEvent as usize => WOp::SysEvent(self.target(me), self.p()),
             x if x == D::Broadcast as usize => WOp::Broadcast(self.p()),
             x if x == D::EntityEvent as usize => WOp::EntityEvent(s, self.p()),
-            x if x == D::TriggerRes as usize => WOp::TriggerRes(self.res()),
+            x if x == D::TriggerRes as usize => WOp::TriggerRes(self.res3()),
             x if x == D::Run as usize => WOp::Run(self.target(me)),
             x if x == D::Reparent as usize =>
             {
@@ -468,6 +488,11 @@ impl<'a> G<'a>
             x if x == D::ResAcc as usize =>
             {
                 const KINDS: [ResAccKind; 8] = [ResAccKind::WorldNoreact, ResAccKind::WorldGetNoreact, ResAccKind::WorldRead, ResAccKind::ParamRead, ResAccKind::WorldInsert, ResAccKind::CmdInsert, ResAccKind::Init, ResAccKind::GetOrInsertWith];
+                if self.r.chance(self.c.pct_res_t * 2)
+                {
+                    const TK: [ResAccKind; 10] = [ResAccKind::WorldRemove, ResAccKind::CmdRemove, ResAccKind::WorldRemove, ResAccKind::WorldInsert, ResAccKind::CmdInsert, ResAccKind::Init, ResAccKind::GetOrInsertWith, ResAccKind::WorldRead, ResAccKind::ParamRead, ResAccKind::WorldNoreact];
+                    return Some(WOp::ResAcc(TK[self.r.below(10) as usize], R::T, self.val()));
+                }
                 WOp::ResAcc(KINDS[self.r.below(8) as usize], self.res(), self.val())
             }
             x if x == D::Move as usize =>
@@ -503,7 +528,7 @@ impl<'a> G<'a>
             x if x == K::SysEvent as usize => Op::SysEvent(self.target(me), self.p()),
             x if x == K::Broadcast as usize => Op::Broadcast(self.p()),
             x if x == K::EntityEvent as usize => Op::EntityEvent(s, self.p()),
-            x if x == K::TriggerRes as usize => Op::TriggerRes(self.res()),
+            x if x == K::TriggerRes as usize => Op::TriggerRes(self.res3()),
             x if x == K::Insert as usize => Op::Insert(s, self.comp(), self.val()),
             x if x == K::Remove as usize => Op::Remove(s, self.comp()),
             x if x == K::Despawn as usize => Op::Despawn(s),
